@@ -349,22 +349,8 @@ def run_impl(case):
                 viol('c11-resave', 'to_json(load(s)) differs from s: ' + str(_first_diff(json.loads(s), json.loads(s2))), phase=phase)
         except Exception as e:
             viol('c11-resave', 'to_json of the loaded object raises %s: %s' % (type(e).__name__, str(e)[:120]), phase=phase)
-        # (ii) identical optimisation problem for two (grid, prices) pairs
-        for vi, (tg, prices) in enumerate(variants):
-            a = _setup(obj, prices, tg)
-            b = _setup(obj2, prices, tg)
-            if a[0] != b[0]:
-                viol('c11-problem', 'variant %d: original set-up %s (%s), loaded set-up %s (%s)' % (
-                    vi, a[0], a[1] if a[0] == 'err' else '', b[0], b[1] if b[0] == 'err' else ''), phase=phase, variant=vi)
-            elif a[0] == 'ok':
-                d = pf.cmp_problem('loaded-vs-original', b[1], a[1], tol=0)
-                if d:
-                    viol('c11-problem', 'variant %d: %s' % (vi, d[0].replace('(model)', '(loaded)').replace('(impl)', '(original)')),
-                         phase=phase, variant=vi)
-                feats.append('problem-compared')
-            elif a[1] != b[1]:
-                viol('c11-problem', 'variant %d: different errors %s vs %s' % (vi, a[1], b[1]), phase=phase, variant=vi)
         # (iii) a portfolio's own grid survives: same points, same zone; can be set up and optimised
+        # (checked first: a set-up call WITH a grid argument replaces the portfolio's grid)
         if cls == 'Portfolio' and t['own_grid']:
             g1, g2 = obj.timegrid, getattr(obj2, 'timegrid', None)
             if g2 is None:
@@ -378,8 +364,9 @@ def run_impl(case):
                     viol('c11-grid', 'time points differ (%d vs %d points)' % (len(p1), len(p2)), phase=phase)
                 if list(g1.dt) != list(g2.dt) or g1.main_time_unit != g2.main_time_unit or g1.freq != g2.freq:
                     viol('c11-grid', 'step lengths / unit / freq differ', phase=phase)
-                a = _setup(obj, variants[0][1], None)
-                b = _setup(obj2, variants[0][1], None)
+                own_prices = variants[0][1]     # (the after-setup phase starts with a set-up on variant 0)
+                a = _setup(obj, own_prices, None)
+                b = _setup(obj2, own_prices, None)
                 if a[0] == 'ok' and b[0] != 'ok':
                     viol('c11-grid', 'original can be set up on its own grid, loaded portfolio raises %s' % b[1], phase=phase)
                 elif a[0] == 'ok':
@@ -396,6 +383,21 @@ def run_impl(case):
                                 viol('c11-optimise', 'optimal value %r (original) vs %r (loaded)' % (ra.value, rb.value), phase=phase)
                 elif a[0] != b[0] or a[1] != b[1]:
                     viol('c11-problem', 'own grid: original %s, loaded %s' % (a[:2], b[:2]), phase=phase)
+        # (ii) identical optimisation problem for two (grid, prices) pairs
+        for vi, (tg, prices) in enumerate(variants):
+            a = _setup(obj, prices, tg)
+            b = _setup(obj2, prices, tg)
+            if a[0] != b[0]:
+                viol('c11-problem', 'variant %d: original set-up %s (%s), loaded set-up %s (%s)' % (
+                    vi, a[0], a[1] if a[0] == 'err' else '', b[0], b[1] if b[0] == 'err' else ''), phase=phase, variant=vi)
+            elif a[0] == 'ok':
+                d = pf.cmp_problem('loaded-vs-original', b[1], a[1], tol=0)
+                if d:
+                    viol('c11-problem', 'variant %d: %s' % (vi, d[0].replace('(model)', '(loaded)').replace('(impl)', '(original)')),
+                         phase=phase, variant=vi)
+                feats.append('problem-compared')
+            elif a[1] != b[1]:
+                viol('c11-problem', 'variant %d: different errors %s vs %s' % (vi, a[1], b[1]), phase=phase, variant=vi)
     return out
 
 
